@@ -1,0 +1,83 @@
+//! Verification wrappers around the group scanner primitives, compiled only
+//! with `--cfg hashbrown_verif`. They run the real `Group`/`BitMask` code on a
+//! caller-supplied byte window and return plain data.
+
+use super::bitmask::BitMask;
+use super::{Group, Tag};
+use crate::alloc::vec::Vec;
+
+/// What the scanner compiled into this build reports for one group of bytes.
+#[derive(Clone, Debug, PartialEq, Eq)]
+pub struct VerifGroupScan {
+    /// Indices reported by `match_tag(tag)` (through `BitMask` iteration).
+    pub match_tag: Vec<usize>,
+    /// Indices reported by `match_empty()`.
+    pub match_empty: Vec<usize>,
+    /// Indices reported by `match_empty_or_deleted()`.
+    pub match_empty_or_deleted: Vec<usize>,
+    /// Indices reported by `match_full()`.
+    pub match_full: Vec<usize>,
+    /// `(any_bit_set, lowest_set_bit, trailing_zeros, leading_zeros)` of
+    /// `match_empty()`, `match_empty_or_deleted()` and `match_full()`.
+    pub queries: [(bool, Option<usize>, usize, usize); 3],
+    /// The bytes after `convert_special_to_empty_and_full_to_deleted`.
+    pub converted: Vec<u8>,
+}
+
+/// Width in bytes of the compiled-in group scanner.
+pub fn verif_group_width() -> usize {
+    Group::WIDTH
+}
+
+fn indices(m: BitMask) -> Vec<usize> {
+    m.into_iter().collect()
+}
+
+fn queries(m: BitMask) -> (bool, Option<usize>, usize, usize) {
+    (
+        m.any_bit_set(),
+        m.lowest_set_bit(),
+        m.trailing_zeros(),
+        m.leading_zeros(),
+    )
+}
+
+/// Runs every scanner primitive on `bytes[..Group::WIDTH]`.
+///
+/// With `aligned` the bytes are first copied into a group-aligned buffer and
+/// read back with `load_aligned`, and the converted group is written with
+/// `store_aligned`; otherwise the unaligned `load` is used.
+pub fn verif_group_scan(bytes: &[u8], tag: u8, aligned: bool) -> VerifGroupScan {
+    assert!(bytes.len() >= Group::WIDTH);
+    assert!(tag & 0x80 == 0);
+    #[repr(C, align(16))]
+    struct Buf([u8; 32]);
+    let mut buf = Buf([0; 32]);
+    let off = if aligned { 0 } else { 1 };
+    buf.0[off..off + Group::WIDTH].copy_from_slice(&bytes[..Group::WIDTH]);
+    // SAFETY: `buf` holds at least `off + Group::WIDTH` initialised bytes and is
+    // 16-byte aligned, which satisfies every back-end's group alignment.
+    unsafe {
+        let p = buf.0.as_mut_ptr().add(off);
+        let g = if aligned {
+            Group::load_aligned(p.cast::<Tag>())
+        } else {
+            Group::load(p.cast::<Tag>())
+        };
+        let conv = g.convert_special_to_empty_and_full_to_deleted();
+        let mut out = Buf([0; 32]);
+        conv.store_aligned(out.0.as_mut_ptr().cast::<Tag>());
+        VerifGroupScan {
+            match_tag: indices(g.match_tag(Tag(tag))),
+            match_empty: indices(g.match_empty()),
+            match_empty_or_deleted: indices(g.match_empty_or_deleted()),
+            match_full: indices(g.match_full()),
+            queries: [
+                queries(g.match_empty()),
+                queries(g.match_empty_or_deleted()),
+                queries(g.match_full()),
+            ],
+            converted: out.0[..Group::WIDTH].to_vec(),
+        }
+    }
+}
